@@ -319,6 +319,27 @@ def step (isMax : Bool) (s : State) : CEv → Option State
   | .drop h => (dropInst (cfg isMax) s.fam h).map (fun f => { s with fam := f })
   | .put t h j v => (updAt (cfg isMax) s.fam t h j (put isMax (s.ver h) v)).map (fun p => { s with fam := p.1 })
   | .reset h => if h ∈ s.fam.handles then some { s with ver := upd1 s.ver h ((s.ver h + 1) % 2 ^ 64) } else none
+def init (isMax : Bool) : State := { fam := Fam.init (cfg isMax), ver := fun _ => 0 }
+/-- the reference: handle ↦ `none` (no such comparer) | `some none` (no sample in the current period) |
+`some (some e)` (`e` = extreme of the samples of the current period) -/
+abbrev Ref := Nat → Option (Option Int)
+def refStep (isMax : Bool) (r : Ref) : CEv → Ref
+  | .tstart _ => r | .texit _ => r
+  | .new h _ => upd1 r h (some none)
+  | .drop h => upd1 r h none
+  | .put _ h _ v =>
+    upd1 r h ((r h).map (fun o => some (match o with
+      | none => v
+      | some e => if better isMax v e then v else e)))
+  | .reset h => upd1 r h ((r h).map (fun _ => none))
+def run (isMax : Bool) : State → Ref → List CEv → Option (State × Ref)
+  | s, r, [] => some (s, r)
+  | s, r, e :: es => (step isMax s e).bind (fun s' => run isMax s' (refStep isMax r e) es)
+/-- number of `reset` events of a history -/
+def resets : List CEv → Nat
+  | [] => 0
+  | .reset _ :: es => resets es + 1
+  | _ :: es => resets es
 end Cmp
 
 /- the bare thread-locals the harness exercises directly: cells hold a `uint64_t`, `add` is
